@@ -10,7 +10,7 @@ Line protocol of area `c34` (stateless; `<cfg>` = `b` | `c` | `x:<16 comma separ
   refs <cfg> <k> {count}*k                                       record_reference_count folded, then finalize
   msg <1|2> <cfg> none | pt <s|b> <mime> <len> | enc <len> <m> {key val count}*m
   ins <1|2> <cfg> <n>                                            instruction-count check
-  tx2 <cfg> <req|-> <bps> <k> {net start end minTs maxTs msgLen refs instrs sigs}*k     whole V2 transaction (limit checks)
+  tx2 <cfg> <req|-> <bps> <k> {net start end minTs maxTs msgLen refs pad sigs}*k     whole V2 transaction (limit checks)
 -/
 
 def u64? (s : String) : Option Nat := match s.toNat? with
@@ -118,21 +118,24 @@ def parseMsg : List String → Option Message
     | _, _ => none
   | _ => none
 
-/-- `{net start end minTs maxTs msgLen refs instrs sigs}` -/
-def parseIntents : Nat → List String → Option (List IntentShape)
-  | 0, [] => some []
-  | 0, _ :: _ => none
-  | k + 1, net :: s :: e :: a :: b :: ml :: refs :: ins :: sigs :: rest =>
-    match bounded? 255 net, u64? s, u64? e, optTs? a, optTs? b, parseIntents k rest with
+/-- `{net start end minTs maxTs msgLen refs pad sigs}`; intent `idx` of `total` intents (0 = root). The
+harness builds each manifest as: root = one `YIELD_TO_CHILD` per child, subintent = a final
+`YIELD_TO_PARENT`, plus one `CALL_METHOD` per reference and `pad` reference-free instructions. -/
+def parseIntents (total : Nat) : Nat → Nat → List String → Option (List IntentShape)
+  | _, 0, [] => some []
+  | _, 0, _ :: _ => none
+  | idx, k + 1, net :: s :: e :: a :: b :: ml :: refs :: pad :: sigs :: rest =>
+    match bounded? 255 net, u64? s, u64? e, optTs? a, optTs? b, parseIntents total (idx + 1) k rest with
     | some net, some s, some e, some a, some b, some xs =>
       match (if ml = "-" then some Message.none else (bounded? 100000 ml).map (fun l => Message.plaintext 10 l)),
-            bounded? 100000 refs, bounded? 100000 ins, bounded? 1000 sigs with
-      | some m, some refs, some ins, some sigs =>
+            bounded? 100000 refs, bounded? 100000 pad, bounded? 1000 sigs with
+      | some m, some refs, some pad, some sigs =>
         some ({ header := { net := net, startEpoch := s, endEpoch := e, minTs := a, maxTs := b },
-                message := m, refs := refs, instructions := ins, sigs := sigs } :: xs)
+                message := m, refs := refs,
+                instructions := refs + pad + (if idx = 0 then total - 1 else 1), sigs := sigs } :: xs)
       | _, _, _, _ => none
     | _, _, _, _, _, _ => none
-  | _ + 1, _ => none
+  | _, _ + 1, _ => none
 
 def showSigLoc : SigLoc → String
   | .root => "root"
@@ -207,7 +210,7 @@ def stepLine (_ : Unit) (line : String) : Unit × String :=
   | "tx2" :: cfg :: req :: bps :: k :: rest =>
     match cfg? cfg, req? req, bounded? 4294967295 bps, k.toNat? with
     | some c, some req, some bps, some k =>
-      match parseIntents k rest with
+      match (if k > 8 then none else parseIntents k 0 k rest) with
       | some (root :: subs) =>
         match validateTxV2 c req bps root subs with
         | .ok (o, t) => s!"ok {o.startEpoch} {o.endEpoch} {showTs o.startTs} {showTs o.endTs} {t}"
